@@ -179,8 +179,17 @@ def gen_random_layout(rng):
         gmax[i][j] = dmax
         gmin[i][j] = min(gmin[i][j], dmax)
         grids = (gmin, gmax)
+    origin = (rng.randrange(0, 40), rng.randrange(1, 60)) if rng.random() < 0.3 else None
+    if rng.random() < 0.03:
+        # an interval of 256 disparities or more (per-disparity counters of allocate_right_mask), far wider than the image
+        dmin, dmax = -rng.randrange(120, 200), rng.randrange(136, 180)
+        grids, subpix = None, 1
+        method = rng.choice(["sad", "ssd"])
+        # mostly masked right image, mostly valid left image: for many pixels every in-image candidate is masked (bit 7)
+        rcls = random_cls(rng, rows, cols, 0.05, 0.8)
+        lcls = random_cls(rng, rows, cols, 0.05, 0.05) if rng.random() < 0.5 else None
     return dict(rows=rows, cols=cols, w=w, off=off, dmin=dmin, dmax=dmax, lcls=lcls, rcls=rcls, subpix=subpix,
-                method=method, grids=grids, masked_value=rng.choice([2, 2, 5, 255, -3]), full=True)
+                method=method, grids=grids, masked_value=rng.choice([2, 2, 5, 255, -3]), full=True, origin=origin)
 
 
 def gen_small_layout(rng):
@@ -279,6 +288,13 @@ def check_layouts(ctx, model, layouts, label):
         rows, cols, off = lay["rows"], lay["cols"], lay["off"]
         disp = (lay["dmin"], lay["dmax"])
         L, R = make_images(rng, rows, cols, lay["lcls"], lay["rcls"], disp, lay["grids"], lay["masked_value"])
+        if lay.get("origin"):
+            # the pair read through a ROI: row / col coordinates are those of the full image (they do not start at 0);
+            # flags are a function of positions inside the datasets, so nothing may change
+            r0, c0 = lay["origin"]
+            L = L.assign_coords(row=L.coords["row"].data + r0, col=L.coords["col"].data + c0)
+            R = R.assign_coords(row=R.coords["row"].data + r0, col=R.coords["col"].data + c0)
+            ctx.count("layouts_with_roi_coordinates")
         cfg = {"matching_cost_method": lay["method"], "window_size": lay["w"], "subpix": lay["subpix"]}
         rec = {"err": None}
         try:
